@@ -28,8 +28,17 @@ func runC16(p *core.Program, r *core.Report) {
 	c16R1(p, r)
 	c16R2(p, r)
 	c16R3(p, r)
+	// the doc lines handed to Context.Doc are not cached by the universe (Doc edits them in place)
+	sub := core.NewReport(r.Prog, "C13")
+	c13R7(p, sub)
+	for _, o := range sub.Obls {
+		if o.Status == core.Violated || o.Status == core.Undecided {
+			r.Bad("R3", nil, o.Func+": "+o.Construct, token.NoPos, o.How)
+		}
+	}
 	r.Floor("U1", 3)
 	a10Report(p, r, "U1", "devpkg/runtimedocgen")
+	generatorOrderSources(p, r, "R4", "devpkg/runtimedocgen")
 	// processed set is consulted and set before rendering
 	processedGuard(p, r, "R2", "devpkg/runtimedocgen", "(*runtimedocGen).generateType")
 }
